@@ -285,10 +285,12 @@ theorem pushDefaultK_LR : ∀ (b : B) (k : Nat) (b' : B), pushDefaultK b k = .ok
     · simp [fail] at h
   | .union p (.cons c m rest) types offs cur, k, b', h, hp => by
     simp only [pushDefaultK, ctx_ok] at h
-    obtain ⟨c', h1, h2⟩ := (bind_ok _ _ _).1 h
-    cases h2
-    simp only [LR, LRL] at hp ⊢
-    exact ⟨pushDefaultK_LR c k c' h1 hp.1, hp.2⟩
+    split at h
+    · simp [fail] at h
+    · obtain ⟨fs', h1, h2⟩ := (bind_ok _ _ _).1 h
+      cases h2
+      simp only [LR] at hp ⊢
+      exact pushDefaultKAt_LR _ _ k fs' h1 hp
 theorem pushDefaultKAll_LR : ∀ (fs : BL) (k : Nat) (fs' : BL), pushDefaultKAll fs k = .ok fs' → LRL fs → LRL fs'
   | .nil, k, fs', h, _ => by simp only [pushDefaultKAll] at h; cases h; trivial
   | .cons b m rest, k, fs', h, hp => by
@@ -298,6 +300,20 @@ theorem pushDefaultKAll_LR : ∀ (fs : BL) (k : Nat) (fs' : BL), pushDefaultKAll
     cases h4
     simp only [LRL] at hp ⊢
     exact ⟨pushDefaultK_LR b k b' h1 hp.1, pushDefaultKAll_LR rest k r' h3 hp.2⟩
+theorem pushDefaultKAt_LR : ∀ (fs : BL) (j k : Nat) (fs' : BL), pushDefaultKAt fs j k = .ok fs' → LRL fs → LRL fs'
+  | .nil, _, _, fs', h, _ => by simp only [pushDefaultKAt] at h; cases h; trivial
+  | .cons b m rest, 0, k, fs', h, hp => by
+    simp only [pushDefaultKAt] at h
+    obtain ⟨b', h1, h2⟩ := (bind_ok _ _ _).1 h
+    cases h2
+    simp only [LRL] at hp ⊢
+    exact ⟨pushDefaultK_LR b k b' h1 hp.1, hp.2⟩
+  | .cons b m rest, j + 1, k, fs', h, hp => by
+    simp only [pushDefaultKAt] at h
+    obtain ⟨r', h1, h2⟩ := (bind_ok _ _ _).1 h
+    cases h2
+    simp only [LRL] at hp ⊢
+    exact ⟨hp.1, pushDefaultKAt_LR rest j k r' h1 hp.2⟩
 end
 
 theorem pushNone_LR : ∀ (b : B) (b' : B), pushNone b = .ok b' → LR b → LR b'
@@ -350,6 +366,8 @@ theorem pushNone_LR : ∀ (b : B) (b' : B), pushNone b = .ok b' → LR b → LR 
     exact pushDefaultKAll_LR fs 1 fs' h3 hp
   | .dictionary p idx vals index, b', h, hp => by
     simp only [pushNone, ctx_ok] at h
+    split at h
+    · simp [fail] at h
     obtain ⟨idx', h1, h2⟩ := (bind_ok _ _ _).1 h
     cases h2
     simp only [LR] at hp ⊢
